@@ -52,7 +52,7 @@ func c13Profile(withTextStructSlices bool) shape.Profile {
 	return shape.Profile{
 		LeafTypes: leaves,
 		Nested:    []string{"struct", "pstruct"},
-		MaxDepth:  3, MaxFields: 4, MinFields: 1,
+		MaxDepth:  3, MaxFields: 5, MinFields: 1,
 	}
 }
 
@@ -239,13 +239,55 @@ func genShapeData(t *rapid.T, withTextStructSlices bool) (shape.Shape, reflect.T
 		t.Fatalf("generated shape does not build: %v", err)
 	}
 	nodes := shape.Walk(T)
-	d := shape.GenData(t, nodes, 1, 55)
-	if len(d.Layers) == 0 {
-		d.Layers = []shape.Layer{{Set: map[string]uint64{}, Present: map[string]bool{}}}
-	}
-	d.Layers[0].ByPtr = false
+	d := genData(t, nodes)
 	avoidMinInt64(nodes, d.Layers[0])
 	return s, T, nodes, d
+}
+
+// genData draws mostly non-zero defaults and the one layer of keys present in
+// the documents: about one document in twenty is empty, one in ten sets every
+// leaf, the others set each leaf with a probability drawn per case.
+func genData(t *rapid.T, nodes []shape.Node) shape.Data {
+	d := shape.Data{Defaults: map[string]uint64{}, DefNil: map[string]bool{}}
+	underNil := func(n shape.Node) bool {
+		for p := range d.DefNil {
+			if strings.HasPrefix(n.Path, p+".") {
+				return true
+			}
+		}
+		return false
+	}
+	for _, n := range nodes {
+		if underNil(n) {
+			continue
+		}
+		switch n.Class {
+		case shape.ClassLeaf:
+			if rapid.IntRange(0, 4).Draw(t, "def_zero") != 0 {
+				d.Defaults[n.Path] = rapid.Uint64Range(1, 1<<40).Draw(t, "def_seed")
+			}
+		case shape.ClassPStruct:
+			if rapid.IntRange(0, 2).Draw(t, "def_nil") == 0 {
+				d.DefNil[n.Path] = true
+			}
+		}
+	}
+	l := shape.Layer{Set: map[string]uint64{}, Present: map[string]bool{}}
+	pct := []int{0, 100, 100, 30, 30, 30, 50, 50, 50, 50, 50, 70, 70, 70, 70, 70, 85, 85, 85, 85}[rapid.IntRange(0, 19).Draw(t, "density")]
+	for _, n := range nodes {
+		switch n.Class {
+		case shape.ClassLeaf:
+			if rapid.IntRange(0, 99).Draw(t, "set") < pct {
+				l.Set[n.Path] = rapid.Uint64Range(1, 1<<40).Draw(t, "seed")
+			}
+		case shape.ClassStruct, shape.ClassPStruct:
+			if rapid.IntRange(0, 99).Draw(t, "present") < 12 {
+				l.Present[n.Path] = true
+			}
+		}
+	}
+	d.Layers = []shape.Layer{l}
+	return d
 }
 
 // avoidMinInt64 moves a leaf on to the next seed whose value holds no
@@ -284,7 +326,7 @@ func hasMinInt64(v reflect.Value) bool {
 }
 
 func genC13Agree(t *rapid.T) C13Case {
-	s, T, _, d := genShapeData(t, true)
+	s, T, _, d := genShapeData(t, rapid.IntRange(0, 3).Draw(t, "with_text_struct_slices") == 0)
 	c := C13Case{Shape: s, Data: d, Texts: map[string]string{}}
 	c.Wrap = rapid.SampledFrom([]string{"none", "setslice", "setslice", "ez"}).Draw(t, "wrap")
 	notes := map[string]bool{}
